@@ -284,6 +284,15 @@ def generate(rng, tier):
             if rng.random() < 0.3:
                 args[0] = [args[0], rand_series(rng, rand_days(rng, 'overlap', []), 0.3)]
             yield dict(tag='presync/%d/%s/%s' % (k, how, m), lines=['(align presync %s %s %s)' % (enc_tree(tuple(args)), how, m)])
+    # the policy as a WORD / attribute / default, the function's parameters named like policy words (review v4 2.2)
+    for _ in range(80 if tier == 'quick' else 1500):
+        args = [rand_series(rng, rand_days(rng, 'overlap', []), 0.2), rand_series(rng, rand_days(rng, 'overlap', []), 0.2)]
+        if rng.random() < 0.15:
+            args[rng.randrange(2)] = rng.choice([1, 2.5, None])
+        k, how, m = rng.randrange(len(WNAMES)), rng.choice(HOWS), rng.choice(METHODS)
+        sp = rng.choice(['word', 'attr'] + (['default'] if how == 'ij' else []))
+        yield dict(tag='presyncw/%s/%s/%s' % ('+'.join(WNAMES[k]), how, sp),
+                   lines=['(align presyncw %s I:%d %s %s %s)' % (enc_tree(tuple(args)), k, how, sp, m)])
     # presync(f)(*args, columns=False, **kwargs): Series, one- and multi-column frames, scalars, nested lists / dicts, keywords
     for _ in range(150 if tier == 'quick' else 4000):
         case = gen_presynck(rng)
@@ -455,6 +464,12 @@ def gen_presynck(rng, m=None):
 
 # ------------------------------------------------------------------ implementation runner
 
+# parameter names that are also presync's policy words (review v4 2.2): `.lj` IS join='left', and a string that names a parameter used
+# to be read as "the index of that argument" before it was read as a policy
+WNAMES = [('left', 'right'), ('right', 'left'), ('x', 'left'), ('right', 'y'), ('inner', 'y'), ('x', 'outer'), ('outer', 'inner'), ('a', 'b')]
+POLICY_WORD = {'ij': 'inner', 'oj': 'outer', 'lj': 'left', 'rj': 'right'}
+
+
 def _f2(a, b):
     return (a, b)
 
@@ -566,6 +581,19 @@ def run_line(state, sx):
         if isinstance(ix, (int, np.integer)):
             return 'ok I:%d' % ix
         return 'ok (L%s)' % ''.join(' ' + W.enc_t(t) for t in ix)
+    elif op == 'presyncw':
+        if not isinstance(tree, tuple) or len(tree) != 2:
+            return 'bad-op'
+        names, how, sp = WNAMES[int(args[1][2:])], args[2], args[3]
+        f = pyg_base.presync(eval('lambda %s, %s: (%s, %s)' % (names + names)))
+        if sp == 'word':
+            res = f(*tree, join=POLICY_WORD[how], method=dec_method(args[4]))
+        elif sp == 'attr':
+            res = getattr(f, how)(*tree, method=dec_method(args[4]))
+        elif sp == 'default' and how == 'ij':
+            res = f(*tree, method=dec_method(args[4]))
+        else:
+            return 'bad-op'
     elif op == 'presync':
         if not isinstance(tree, tuple) or len(tree) not in (2, 3):
             return 'bad-op'
